@@ -186,6 +186,8 @@ func (sn *Node) GetOccupiedResource() *resources.Resource {
 }
 
 func (sn *Node) UpdateAllocatedResource(delta *resources.Resource) {
+	// the utilisation changes: listeners (node sorting) must be told, like for every other usage change
+	defer sn.notifyListeners()
 	sn.Lock()
 	defer sn.Unlock()
 	sn.allocatedResource.AddTo(delta)
